@@ -294,3 +294,7 @@ CLAIMS["C18"]["text"] += (" Dialer side, end to end: 2000 (quick) / 40000 (thoro
 CLAIMS["C18"]["note"] += (" The end-to-end dials use loopback UDP and real time for I/O only (a 15 s dial timeout makes the case inconclusive); listeners sit on a pinned mock clock.")
 CLAIMS["C19"]["text"] += (" Client side, origin dimension: one ClientPeerIDAuth is used, within and beyond its TokenTTL, against 2-4 origins whose Host strings differ only in port, letter case or a trailing dot, each served by an independent auth server, a replica sharing the HMAC secret under another identity key, "
     "the same instance under another spelling or behind a Host-rewriting proxy, an unauthenticated endpoint answering 2xx-5xx, or an endpoint replaying another origin's auth headers: a reported server ID must be backed by a signature of that call over the client's challenge, its key and that request's exact Host, or be the replay of that origin's own token to it; a bearer token is never sent to an origin that did not issue it.")
+
+CLAIMS["C15"]["text"] += (" Histories also contain calls the bus must refuse: Subscribe with a non-pointer or the wildcard at any position of a multi-type list, option errors, Emitter for a non-pointer or the wildcard, and a second Emitter.Close; these race with ordinary traffic and their shape space is additionally enumerated completely. "
+    "A refused call creates no subscriber, so it may never be the reason an Emit waits, and every real subscriber keeps receiving each event exactly once and in order.")
+CLAIMS["C15"]["note"] += (" Refused calls are the documented error cases only; nil elements (the bus panics) and lists naming one type twice (accepted by the bus with double delivery; with a retained stateful event and BufSize(0) that call never returns) are not generated: observed, outside the statement's domain.")
